@@ -58,7 +58,8 @@ def _factor_checks(out, tag, g, filt, formula=None, wit=None):
    out.fail(name, witness=wit, detail='rows differ', key=name))
   res = fac[:L]
   name = f'{tag}:factor in (0,1] on resolved wavenumbers (0 only by float underflow of exp), finite everywhere'
-  positive = np.all(res >= 0) and (formula is None or np.all(res[formula(np.arange(L)) > 0] > 0))
+  # underflow includes the subnormal range: XLA flushes subnormal results to zero, numpy's exp keeps them (DESIGN 9, C15 subnormals)
+  positive = np.all(res >= 0) and (formula is None or np.all(res[formula(np.arange(L)) >= 1e3 * np.finfo(np.float64).tiny] > 0))
   ok = np.all(np.isfinite(diag)) and positive and np.all(res <= 1)
   (out.ok(name, 'numeric', sample={'obligation': name, 'factors': [float(v) for v in res]}) if ok else
    out.fail(name, witness=dict(wit, factors=[float(v) for v in fac]), detail=f'factors {fac}', key=name))
